@@ -59,7 +59,7 @@ def observe (bs : Bytes) : String :=
     | .peerDown =>
       let r := showO toString (peerDownReason bs)
       let f := showO (fun o => match o with | some v => toString v | none => "none") (peerDownFsm bs)
-      let n := showO (fun o => match o with | some b => hexOrDash b | none => "none") (peerDownNotification bs)
+      let n := showO (fun o => match o with | some b => hexOrDash b | none => "none") (peerDownNotification deps bs)
       s!"PD {h} pph={p} reason={r} fsm={f} notif={n}"
     | .peerUp =>
       match peerUp deps bs with
